@@ -14,3 +14,38 @@ package tsclientgen
 
 //@ func rootUnwrapTSType(msg *protogen.Message) (r string)
 //@   requires bounds: len(msg.Fields) >= 1
+
+// ---- the emitted request line is the decided route (C03: dataflow from the deciding function to the emitted text) ----
+//@ func snakeToLowerCamel(s string) (r string)
+//@   pure
+
+// the path literal is the configured full path, every path variable is substituted from the request property of that
+// name, and on a body-less verb every query parameter is sent under its published name
+//@ func (g *Generator) generateURLBuilding(p printer, cfg *rpcMethodConfig)
+//@   requires cfg != nil
+//@   modifies *
+//@   at-call "p:let path = " requires path_as_configured: line == "    let path = \"" + cfg.fullPath + "\";"
+//@   ensures one_path_literal: count("p:let path = ") == old(count("p:let path = ")) + 1
+//@   at-call "p:path = path.replace(" requires variable_from_its_property: line == "    path = path.replace(\"{" + param + "}\", encodeURIComponent(String(req." + snakeToLowerCamel(param) + ")));"
+//@   loop 1 invariant count("p:path = path.replace(") == old(count("p:path = path.replace(")) + _i1
+//@   ensures every_variable_substituted: count("p:path = path.replace(") == old(count("p:path = path.replace(")) + len(cfg.pathParams)
+//@   at-call "p:params.set(" requires under_published_name: contains(line, "params.set(\"" + qp.ParamName + "\", String(req." + qp.FieldJSONName + "));")
+//@   loop 2 invariant count("p:params.set(") == old(count("p:params.set(")) + _i2
+//@   ensures every_query_parameter_sent: (cfg.httpMethod == "GET" || cfg.httpMethod == "DELETE") ==> count("p:params.set(") == old(count("p:params.set(")) + len(cfg.queryParams)
+//@   ensures no_query_with_body: !(cfg.httpMethod == "GET" || cfg.httpMethod == "DELETE") ==> count("p:params.set(") == old(count("p:params.set("))
+
+// the verb handed to fetch is the configured verb, and a body is sent exactly for body verbs
+//@ func (g *Generator) generateFetchCall(p printer, cfg *rpcMethodConfig)
+//@   requires cfg != nil
+//@   modifies *
+//@   at-call "p:method: " requires verb_as_configured: line == "      method: \"" + cfg.httpMethod + "\","
+//@   ensures one_verb: count("p:method: ") == old(count("p:method: ")) + 1
+//@   ensures body_iff_body_verb: (count("p:body: JSON.stringify(req)") > old(count("p:body: JSON.stringify(req)"))) <==> cfg.hasBody
+
+// one RPC method is emitted from the configuration decided for that RPC (and for no other)
+//@ func (g *Generator) generateRPCMethod(p printer, service *protogen.Service, method *protogen.Method)
+//@   requires service != nil && method != nil
+//@   modifies *
+//@   at-call generateURLBuilding requires own_config: arg1 != nil && arg1.httpMethod == old(spec.verbOf(method)) && arg1.fullPath == old(spec.clientPath(service, method)) && arg1.pathParams == old(spec.pathVars(method)) && arg1.queryParams == old(annotations.GetQueryParams(method.Input))
+//@   at-call generateFetchCall requires own_config: arg1 != nil && arg1.httpMethod == old(spec.verbOf(method)) && (arg1.hasBody <==> spec.isBodyVerb(old(spec.verbOf(method))))
+//@   ensures url_and_fetch_once: count("generateURLBuilding") == old(count("generateURLBuilding")) + 1 && count("generateFetchCall") == old(count("generateFetchCall")) + 1
